@@ -220,59 +220,73 @@ theorem popBack_wf_concat (s : LL T) (l : List (Nat × T)) (a : Nat) (t : T) (h 
   obtain ⟨hndl, _, hdisj⟩ := List.nodup_append.1 hnd
   have hal : a ∉ addrs l := fun hm => hdisj a hm a (by simp) rfl
   have hlen : ¬ s.len = 0 := by rw [h.len]; simp
-  obtain ⟨hlive1, hfreed1, hafr⟩ := memOK_free _ _ _ a _ hs2 h.mem
-  let c1 := st s.mem.cells a none
-  have ef : s.mem.free a = .ok ({ cells := c1, freed := a :: s.mem.freed }, ⟨lastOr l none, none, t⟩) :=
-    free_ok _ _ _ hs2
-  have hseg1 : Seg c1 none l (some a) := by
-    apply seg_frame _ _ _ _ _ _ hs1
-    intro a' ha'
-    exact gt_st_ne _ _ _ _ (fun e => hal (e ▸ ha'))
-  have hlive1' : ∀ a' m, gt c1 a' = some m → a' ∈ addrs l := by
-    intro a' m hm
-    obtain ⟨h1, h2⟩ := hlive1 a' m hm
+  have erd : s.mem.rd a = .ok ⟨lastOr l none, none, t⟩ := rd_ok _ _ _ hs2
+  have hsub : ∀ a', a' ∈ addrs (l ++ [(a, t)]) → a' ≠ a → a' ∈ addrs l := by
+    intro a' h1 h2
     simp only [addrs, List.map_append, List.map_cons, List.map_nil, List.mem_append, List.mem_singleton] at h1
     rcases h1 with h1 | h1
     · exact h1
     · exact absurd h1 h2
   rcases eq_nil_or_snoc l with e | ⟨l', ⟨nw, tn⟩, e⟩
   · subst e
+    obtain ⟨hlive1, hfreed1, hafr⟩ := memOK_free _ _ _ a _ hs2 h.mem
+    let c1 := st s.mem.cells a none
+    have ef : s.mem.free a = .ok ({ cells := c1, freed := a :: s.mem.freed }, ⟨lastOr [] none, none, t⟩) :=
+      free_ok _ _ _ hs2
     refine ⟨{ mem := { cells := c1, freed := a :: s.mem.freed }, front := none, back := none, len := s.len - 1 },
       ?_, ?_, rfl, by simp [c1]⟩
-    · simp only [LL.popBack, hb]; rw [ef]; simp [lastOr, LL.popFixup, hlen]
-    · refine ⟨trivial, by simp [addrs], rfl, rfl, by simp [h.len], ?_, hlive1', hfreed1⟩
-      exact List.nodup_cons.2 ⟨hafr, h.freedNodup⟩
+    · simp only [LL.popBack, hb]; rw [erd]; simp only [lastOr, LL.popFixup, if_neg hlen]; rw [ef]
+    · refine ⟨trivial, by simp [addrs], rfl, rfl, by simp [h.len], ?_, ?_, hfreed1⟩
+      · exact List.nodup_cons.2 ⟨hafr, h.freedNodup⟩
+      · intro a' m hm
+        obtain ⟨h1, h2⟩ := hlive1 a' m hm
+        exact hsub a' h1 h2
   · have hlne : l ≠ [] := by rw [e]; simp
     have hnwa : nw ≠ a := by
       intro e'; apply hal; rw [e]; simp [addrs, e']
     have hnwl' : nw ∉ addrs l' := by
       rw [e] at hndl
-      simp only [addrs, List.map_append, List.map_cons, List.map_nil] at hndl
+      simp only [List.map_append, List.map_cons, List.map_nil] at hndl
       obtain ⟨_, _, hd⟩ := List.nodup_append.1 hndl
       exact fun hm => hd nw hm nw (by simp) rfl
-    have hgnw : gt c1 nw = some ⟨lastOr l' none, some a, tn⟩ := by
-      have := hseg1
+    have hgnw : gt s.mem.cells nw = some ⟨lastOr l' none, some a, tn⟩ := by
+      have := hs1
       rw [e, seg_append] at this
       have h2 := this.2
       simp only [Seg, headOr, and_true] at h2
       exact h2
-    let c2 := st c1 nw (some ⟨lastOr l' none, none, tn⟩)
-    have es : ({ cells := c1, freed := a :: s.mem.freed } : Mem T).setPrev nw none
-        = .ok { cells := c2, freed := a :: s.mem.freed } := by
+    -- (*new).prev = None, while the popped box is still allocated
+    let c1 := st s.mem.cells nw (some ⟨lastOr l' none, none, tn⟩)
+    have es : s.mem.setPrev nw none = .ok { cells := c1, freed := s.mem.freed } := by
       rw [setPrev_ok _ _ _ _ hgnw]
+    have hga1 : gt c1 a = some ⟨lastOr l none, none, t⟩ := by
+      show gt (st _ _ _) a = _
+      rw [gt_st_ne _ _ _ _ hnwa]; exact hs2
+    have hmem1 : MemOK c1 s.mem.freed (addrs (l ++ [(a, t)])) := memOK_st_some _ _ _ _ _ _ hgnw h.mem
+    obtain ⟨hlive2, hfreed2, hafr⟩ := memOK_free _ _ _ a _ hga1 hmem1
+    -- the box is freed
+    let c2 := st c1 a none
+    have ef : ({ cells := c1, freed := s.mem.freed } : Mem T).free a
+        = .ok ({ cells := c2, freed := a :: s.mem.freed }, ⟨lastOr l none, none, t⟩) := free_ok _ _ _ hga1
     have hback' : lastOr l none = some nw := by rw [e, lastOr_concat]
+    have hseg1 : Seg c1 none l none := by
+      have := hs1
+      rw [e] at this ⊢
+      exact seg_set_last_prev s.mem.cells nw tn l' none (some a) none hnwl' this
+    have hseg2 : Seg c2 none l none := by
+      apply seg_frame _ _ _ _ _ _ hseg1
+      intro a' ha'
+      exact gt_st_ne _ _ _ _ (fun e => hal (e ▸ ha'))
     refine ⟨{ mem := { cells := c2, freed := a :: s.mem.freed }, front := s.front, back := some nw, len := s.len - 1 },
       ?_, ?_, rfl, by simp [c2, c1]⟩
-    · simp only [LL.popBack, hb]; rw [ef]; simp only [hback', LL.popFixup]; rw [es]; simp [hlen]
-    · have hmem1 : MemOK c1 (a :: s.mem.freed) (addrs l) := ⟨hlive1', hfreed1⟩
-      refine ⟨?_, hndl, ?_, ?_, by simp [h.len], List.nodup_cons.2 ⟨hafr, h.freedNodup⟩,
-        memOK_st_some _ _ _ _ _ _ hgnw hmem1⟩
-      · show Seg c2 none l none
-        rw [e] at hseg1 ⊢
-        exact seg_set_last_prev c1 nw tn l' none (some a) none hnwl' hseg1
+    · simp only [LL.popBack, hb]; rw [erd]; simp only [hback', LL.popFixup]; rw [es]
+      simp only [if_neg hlen]; rw [ef]
+    · refine ⟨hseg2, hndl, ?_, hback'.symm, by simp [h.len], List.nodup_cons.2 ⟨hafr, h.freedNodup⟩, ?_, hfreed2⟩
       · show s.front = headOr l none
         rw [h.front, headOr_append]; exact headOr_ne_nil l hlne _ _
-      · exact hback'.symm
+      · intro a' m hm
+        obtain ⟨h1, h2⟩ := hlive2 a' m hm
+        exact hsub a' h1 h2
 
 /-! ### get_front / get_front_mut -/
 
